@@ -6,6 +6,7 @@ import (
 	"fmt"
 	"hash/fnv"
 	"runtime"
+	"runtime/debug"
 	"strings"
 	"testing"
 	"time"
@@ -1019,7 +1020,53 @@ var c04Retention = probe.Define("C04", "retention", func(t *rapid.T) c04RetainIn
 	return probe.OK(true, "retention")
 })
 
+// c04RunLarge: inputs given DIRECTLY to a body decoder, to the payload-chain decoder and to the cipher are not limited to
+// 64 KiB. Bodies of a few hundred KiB made of as many minimal elements as fit (tens of thousands of empty attributes, minimal
+// proposals, 4-octet payloads of a type that is skipped; ciphertexts whose length is 16 + k*65536): work must stay in
+// proportion to the input - the allocation guard of the oracle sees a quadratic copy loop, the lowered stack limit
+// (TestC04 sets 32 MiB) a recursion per element, a second's worth of iterations nothing at all.
+func c04RunLarge(c *probe.Ctx) {
+	rep := func(unit []byte, n int, head ...byte) model.Bytes {
+		out := append(model.Bytes(nil), head...)
+		for i := 0; i < n; i++ {
+			out = append(out, unit...)
+		}
+		return out
+	}
+	cases := []c04In{
+		{Entry: "body:" + model.KCP, B: rep([]byte{0, 1, 0, 0}, 60000, 1, 0, 0, 0)},                           // 60000 empty attributes
+		{Entry: "body:" + model.KCP, B: rep([]byte{0, 3, 0, 4, 9, 9, 9, 9}, 30000, 2, 0, 0, 0)},               // 30000 attributes of 4 octets
+		{Entry: "body:" + model.KSA, B: rep([]byte{2, 0, 0, 16, 1, 1, 0, 1, 0, 0, 0, 8, 1, 0, 0, 12}, 20000)}, // 20000 minimal proposals, none the last
+		{Entry: "body:" + model.KDelete, B: rep([]byte{1, 2, 3, 4}, 65535, 3, 4, 0xff, 0xff)},
+		{Entry: "body:" + model.KTSi, B: rep([]byte{7, 6, 0, 16, 0, 0, 0xff, 0xff, 1, 1, 1, 1, 2, 2, 2, 2}, 255, 255, 0, 0, 0)},
+		{Entry: "eapmethod:aka", B: rep([]byte{200, 1, 0, 0}, 60000, 50, 1, 0, 0)},                                                // 60000 one-word attributes of a type skipped by length
+		{Entry: "eapmethod:aka", B: rep([]byte{11, 5, 0, 0, 1, 1, 1, 1, 1, 1, 1, 1, 1, 1, 1, 1, 1, 1, 1, 1}, 12000, 50, 1, 0, 0)}, // AT_MAC 12000 times
+		{Entry: "payloads:200", B: rep([]byte{200, 0, 0, 4}, 400000)},                                                             // 400000 payloads of an unsupported type, all skipped
+		{Entry: "payloads:40", B: rep([]byte{40, 0, 0, 5, 7}, 100000)},                                                            // 100000 nonces
+	}
+	last := cases[len(cases)-2].B
+	last[len(last)-4] = 0 // the chain ends
+	last = cases[len(cases)-1].B
+	last[len(last)-5] = 0
+	s := bridge.SuiteSel{Encr: 1}
+	k := fuzzKeysFor(s)
+	for _, n := range []int{16 + 65536, 16 + 65536 - 16, 16 + 65536 + 16, 16 + 2*65536, 16 + 4096, 16 + 1<<20} {
+		b := make(model.Bytes, n)
+		for i := range b {
+			b[i] = byte(i*7 + n)
+		}
+		cases = append(cases, c04In{Entry: "cipher", B: b, Suite: s, Keys: k})
+	}
+	for _, in := range cases {
+		in.Origin = "large-direct-input"
+		if !c04Sweep.Eval(c, in) && c.Failures() > 3 {
+			return
+		}
+	}
+}
+
 func TestC04(t *testing.T) {
+	debug.SetMaxStack(32 << 20) // see c04RunLarge
 	c := probe.NewCtx(t, "C04")
 	shards := 1
 	if c.Thorough() {
@@ -1028,6 +1075,7 @@ func TestC04(t *testing.T) {
 	}
 	if c.Shard == 0 {
 		c04Retention.Eval(c, c04RetainIn{N: c.N(12000, 40000)})
+		c04RunLarge(c)
 		c04RunSKBodies(c)
 		c04RunSANested(c)
 		// every notify type and every configuration attribute type with a few data lengths, as payload bodies (exact capacity
